@@ -9,7 +9,7 @@ Space
                such as keyword-after-dot).  An abstract tree is instantiated with the alphabet
                (IDS[o], IDS[o+1], IDS[o+2], IDS[o+3]) for offsets o: trees with <= 3 leaves get EVERY offset (so every
                identifier occurs at every leaf of every such tree), 4-leaf trees get `alphabets4` offsets that rotate with
-               the tree number and the seed (thorough: every offset).
+               the tree number and the seed (quick 12, thorough 46); 3-leaf trees: every second offset in the quick tier.
   spellings  : and in {and, AND, &} x or in {or, OR, |} x parentheses in {minimal, every operator node, redundant (doubled,
                leaves too)} x blanks in {single, extra (several blanks, blanks inside parentheses, leading/trailing), tight
                (no blanks around & | and parentheses)} = 81, deduplicated by text; 4-leaf trees use a rotating orthogonal
@@ -240,9 +240,10 @@ def _variant_checks(kind, orig, make, tree, ids, n, want_table, want_genes, both
             out.append((kind, f"{kind} of {text!r} -> {v.to_string()!r}: truth table {tab} expected {want_table}"))
         if set(v.genes) != want_genes:
             out.append((kind, f"{kind} of {text!r} -> {v.to_string()!r}: genes {sorted(v.genes)} expected {sorted(want_genes)}"))
-        if not (orig == v):
-            out.append((kind, f"{kind} of {text!r} -> {v.to_string()!r}: `original == variant` is false"))
-        cnt += 1
+        if both_ways is not None:
+            if not (orig == v):
+                out.append((kind, f"{kind} of {text!r} -> {v.to_string()!r}: `original == variant` is false"))
+            cnt += 1
         if both_ways:
             if not (v == orig):
                 out.append((kind, f"{kind} of {text!r} -> {v.to_string()!r}: `variant == original` is false"))
@@ -252,9 +253,19 @@ def _variant_checks(kind, orig, make, tree, ids, n, want_table, want_genes, both
     return cnt
 
 
-def check_instance(tree, ids, spellings, with_reaction=True):
-    """-> (n_evaluations, n_texts, n_asts, [(key, failure, text)])"""
+def _skey(node):
+    """structural key of a parsed rule (ast.dump prints addresses for the tuple-valued nodes made from & and |)"""
     import ast
+    if isinstance(node, ast.Name):
+        return node.id
+    if isinstance(node, ast.BoolOp):
+        return (type(node.op).__name__, type(node.values).__name__, tuple(_skey(v) for v in node.values))
+    return repr(type(node))
+
+
+def check_instance(tree, ids, spellings, with_reaction=True, full_eq=True):
+    """-> (n_evaluations, n_texts, n_asts, [(key, failure, text)])
+    full_eq False: only the text round trip is compared with ==, the other variants by truth table and gene set"""
     import copy as _copy
     from cobra.core.gene import GPR
     idxs = sorted(set(_leaves(tree)))
@@ -298,19 +309,22 @@ def check_instance(tree, ids, spellings, with_reaction=True):
         except Exception as e:  # noqa
             out.append(("genes", f"from_string({text!r}).genes raised {type(e).__name__}: {e}"))
         try:
-            dump = ast.dump(g)
+            dump = _skey(g.body)
         except Exception as e:  # noqa
             dump = None
         if dump is not None and dump not in seen_ast and not out:
             seen_ast.add(dump)
             a = (tree, ids, n, want_table, want_genes)
-            evals += _variant_checks("text-roundtrip", g, lambda: GPR.from_string(g.to_string()), *a, True, out, text)
-            evals += _variant_checks("text-roundtrip", g, lambda: GPR.from_string(str(g)), *a, False, out, text)
-            evals += _variant_checks("copy", g, lambda: g.copy(), *a, False, out, text)
-            evals += _variant_checks("copy", g, lambda: _copy.copy(g), *a, False, out, text)
-            evals += _variant_checks("copy", g, lambda: _copy.deepcopy(g), *a, False, out, text)
-            evals += _variant_checks("pickle", g, lambda: pickle.loads(pickle.dumps(g)), *a, False, out, text)
-            evals += _variant_checks("symbolic", g, lambda: GPR.from_symbolic(g.as_symbolic()), *a, False, out, text)
+            # last-but-two argument: None = truth table and genes only, False = also `original == variant`,
+            # True = also `variant == original`
+            one = False if full_eq else None
+            evals += _variant_checks("text-roundtrip", g, lambda: GPR.from_string(g.to_string()), *a, full_eq, out, text)
+            evals += _variant_checks("text-roundtrip", g, lambda: GPR.from_string(str(g)), *a, None, out, text)
+            evals += _variant_checks("copy", g, lambda: g.copy(), *a, one, out, text)
+            evals += _variant_checks("copy", g, lambda: _copy.copy(g), *a, None, out, text)
+            evals += _variant_checks("copy", g, lambda: _copy.deepcopy(g), *a, None, out, text)
+            evals += _variant_checks("pickle", g, lambda: pickle.loads(pickle.dumps(g)), *a, one, out, text)
+            evals += _variant_checks("symbolic", g, lambda: GPR.from_symbolic(g.as_symbolic()), *a, one, out, text)
             if with_reaction:
                 from cobra import Reaction
 
@@ -329,8 +343,8 @@ def check_instance(tree, ids, spellings, with_reaction=True):
                     if {x.id for x in r2.genes} != want_genes:
                         raise AssertionError(f"genes of the copied reaction: {sorted(x.id for x in r2.genes)}")
                     return r2.gpr
-                evals += _variant_checks("reaction-pickle", g, via_reaction_pickle, *a, False, out, text)
-                evals += _variant_checks("copy", g, via_reaction_copy, *a, False, out, text)
+                evals += _variant_checks("reaction-pickle", g, via_reaction_pickle, *a, one, out, text)
+                evals += _variant_checks("copy", g, via_reaction_copy, *a, None, out, text)
             # the original must be unchanged by all of the above
             if _gpr_table(g, ids, n) != want_table or set(g.genes) != want_genes:
                 out.append(("copy", f"{text!r}: the original rule changed while producing its variants"))
@@ -361,11 +375,11 @@ def _unit_rules(args):
     jobs, with_reaction = args
     evals = texts = asts = 0
     fails, sample = [], None
-    for (nl, ti, off, spid) in jobs:
+    for (nl, ti, off, spid, full_eq) in jobs:
         tree = _trees(nl)[ti]
         ids = _alphabet(off)
         sps = SPELLINGS if spid < 0 else THIRDS[spid]
-        e, t, a, f = check_instance(tree, ids, sps, with_reaction)
+        e, t, a, f = check_instance(tree, ids, sps, with_reaction, full_eq)
         evals, texts, asts = evals + e, texts + t, asts + a
         for key, msg, text in f:
             fails.append({"key": key, "failure": msg,
@@ -480,7 +494,7 @@ def _shift(tree, k, n=4):
 
 
 def check_removal(trees, ids, subset, remove_reactions, as_objects, spelling=(0, 0, 0, 0)):
-    """-> (n_checked reactions still catalysable, failures [str])"""
+    """-> (n_checked reactions still catalysable, failures [(text, rule text of the reaction)])"""
     from cobra.manipulation import remove_genes
     m = build_removal_model(trees, ids, spelling)
     S = set(subset)
@@ -494,7 +508,7 @@ def check_removal(trees, ids, subset, remove_reactions, as_objects, spelling=(0,
     try:
         remove_genes(m, arg, remove_reactions=remove_reactions)
     except Exception as e:  # noqa
-        return 0, [f"remove_genes({names}, remove_reactions={remove_reactions}) raised {type(e).__name__}: {e}"]
+        return 0, [(f"remove_genes({names}, remove_reactions={remove_reactions}) raised {type(e).__name__}: {e}", "")]
     checked = 0
     S_eff = {i for i in S if ids[i] in names}
     for i, t in enumerate(trees):
@@ -503,8 +517,8 @@ def check_removal(trees, ids, subset, remove_reactions, as_objects, spelling=(0,
         checked += 1
         rid = f"R{i}"
         if rid not in m.reactions:
-            fails.append(f"reaction {rid} with rule {render(t, ids, spelling)!r} can still be catalysed without {names} "
-                         f"but was removed (remove_reactions={remove_reactions})")
+            fails.append((f"reaction {rid} with rule {render(t, ids, spelling)!r} can still be catalysed without {names} "
+                          f"but was removed (remove_reactions={remove_reactions})", render(t, ids, spelling)))
             continue
         g = m.reactions.get_by_id(rid).gpr
         for mask in range(16):
@@ -512,16 +526,24 @@ def check_removal(trees, ids, subset, remove_reactions, as_objects, spelling=(0,
             try:
                 got = bool(g.eval({ids[j] for j in K}))
             except Exception as e:  # noqa
-                fails.append(f"{rid}: eval of the new rule {g.to_string()!r} raised {type(e).__name__}: {e}")
+                fails.append((f"{rid}: eval of the new rule {g.to_string()!r} raised {type(e).__name__}: {e}",
+                              render(t, ids, spelling)))
                 break
             if got != _sem(t, K | S_eff):
-                fails.append(f"{rid}: rule {render(t, ids, spelling)!r} after removing {names} is {g.to_string()!r}; with "
-                             f"{sorted(ids[j] for j in K)} absent it is {got}, the old rule with the removed genes absent "
-                             f"is {_sem(t, K | S_eff)}")
+                fails.append((f"{rid}: rule {render(t, ids, spelling)!r} after removing {names} is {g.to_string()!r}; with "
+                              f"{sorted(ids[j] for j in K)} absent it is {got}, the old rule with the removed genes absent "
+                              f"is {_sem(t, K | S_eff)}", render(t, ids, spelling)))
                 break
     if "NORULE" not in m.reactions:
         pass  # a reaction without a rule is not covered by the statement
     return checked, fails
+
+
+def _removal_key(rule, spelling):
+    """rules typed with & or | get tuple-valued BoolOp nodes (GPRCleaner.visit_BinOp); ast.NodeTransformer does not
+    descend into tuples, so _GeneRemover leaves such nodes untouched: one defect, one key.  Everything else: 'remove-genes'"""
+    uses_symbol = (AND_TOK[spelling[0]] == "&" and "&" in rule) or (OR_TOK[spelling[1]] == "|" and "|" in rule)
+    return "remove-genes:symbol-operators" if uses_symbol else "remove-genes"
 
 
 def _unit_removal(args):
@@ -539,11 +561,19 @@ def _unit_removal(args):
                 as_objects = bool((mask + rr) % 2)
                 n, f = check_removal(trees, ids, subset, rr, as_objects, spelling)
                 evals += n
-                for msg in f:
-                    fails.append({"key": "remove-genes", "failure": msg,
-                                  "replay": {"kind": "removal", "trees": [tree_json(t) for t in trees], "ids": ids,
+                for msg, rule in f:
+                    # compact witness: the failing reaction alone, if that reproduces; else the whole pack
+                    keep = trees
+                    if msg.startswith("R") or msg.startswith("reaction R"):
+                        num = msg.split("R", 1)[1]
+                        idx = int("".join(itertools.takewhile(str.isdigit, num)))
+                        one = check_removal([trees[idx]], ids, subset, rr, as_objects, spelling)[1]
+                        if one:
+                            keep, msg = [trees[idx]], one[0][0]
+                    fails.append({"key": _removal_key(rule, spelling), "failure": msg,
+                                  "replay": {"kind": "removal", "trees": [tree_json(t) for t in keep], "ids": ids,
                                              "subset": subset, "remove_reactions": rr, "as_objects": as_objects,
-                                             "spelling": list(spelling)}})
+                                             "spelling": list(spelling), "text": rule}})
     return {"evals": evals, "fails": fails}
 
 
@@ -561,20 +591,26 @@ def run(tier: str, seed: int) -> dict:
     thorough = tier == "thorough"
     N = len(IDS)
     rng = random.Random(seed)
-    alphabets4 = N if thorough else 14
-    # ---- rule instances
+    alphabets4 = 46 if thorough else 12
+    # ---- rule instances: (n_leaves, tree index, alphabet offset, spelling third or -1 for all 81, compare all variants with ==)
     jobs = []
-    for nl in (1, 2, 3):
+    for nl in (1, 2):
         for ti in range(len(_trees(nl))):
             for off in range(N):
-                jobs.append((nl, ti, off, -1))
+                jobs.append((nl, ti, off, -1, True))
+    for ti in range(len(_trees(3))):
+        for off in range(N):
+            if thorough:
+                jobs.append((3, ti, off, -1, True))
+            elif (off + ti + seed) % 2 == 0:
+                jobs.append((3, ti, off, (ti + off // 2 + seed) % 3, (off // 2 + ti) % 3 == 0))
     n4 = len(_trees(4))
     stride = max(1, N // alphabets4)
     for ti in range(n4):
         base = (ti * 7 + seed * 13) % N
         for k in range(alphabets4):
             off = (base + k * stride) % N
-            jobs.append((4, ti, off, -1 if thorough else (ti + k + seed) % 3))
+            jobs.append((4, ti, off, -1 if thorough else (ti + k + seed) % 3, thorough or k % 3 == 0))
     rng.shuffle(jobs)
     units = [("rules", (c, True)) for c in _chunks(jobs, 60)]
     # ---- pairs (3 identifiers chosen by the seed; every ordered pair)
@@ -589,15 +625,15 @@ def run(tier: str, seed: int) -> dict:
     units += [("pairs4", (seed * 1000 + i, n_pairs4 // 16, pair4_ids)) for i in range(16)]
     # ---- removals
     alltrees = _all_trees()
-    pack = 12
-    n_alph_rm = 12 if thorough else 3
+    pack = 40
+    n_alph_rm = 8 if thorough else 2
     rjobs = []
     for a in range(n_alph_rm):
         off = (seed * 23 + a * 29 + 1) % N
         for start in range(0, len(alltrees), pack):
             sp = SPELLINGS[(start + a * 7 + seed) % 81]
             rjobs.append((start, pack, off, (start // pack + a) % 4, sp))
-    units += [("removal", c) for c in _chunks(rjobs, 4)]
+    units += [("removal", c) for c in _chunks(rjobs, 1)]
 
     ctx = mp.get_context("fork")
     nproc = min(16, os.cpu_count() or 1)
@@ -637,8 +673,10 @@ def run(tier: str, seed: int) -> dict:
                 "subset, round trips once per distinct parsed AST) + ordered rule pairs compared with == + (reaction, removed "
                 "gene set, remove_reactions) triples whose reaction can still be catalysed",
         "bounds": {"max_leaves": 4, "max_depth": 3, "abstract_trees": sum(len(_trees(n)) for n in (1, 2, 3, 4)),
-                   "identifiers": N, "alphabets_per_tree_le3_leaves": N, "alphabets_per_4leaf_tree": alphabets4,
-                   "spellings": 81, "spellings_per_4leaf_instance": 81 if thorough else 27,
+                   "identifiers": N, "alphabets_per_tree_le2_leaves": N, "alphabets_per_3leaf_tree": N if thorough else (N + 1) // 2,
+                   "alphabets_per_4leaf_tree": alphabets4,
+                   "spellings": 81, "spellings_per_3or4leaf_instance": 81 if thorough else 27,
+                   "all_variants_compared_with_eq": "every instance" if thorough else "every third instance (text round trip: all)",
                    "pair_trees_le3_leaves_3_genes": n_pair_trees, "pairs_4leaf_sampled": n_pairs4,
                    "removal_alphabets": n_alph_rm, "removal_subsets": 15, "failures_total": len(fails),
                    "failures_per_key": per, "wall_s": round(time.time() - t0, 1)},
@@ -672,5 +710,5 @@ def replay(payload_replay: dict):
         trees = [tree_from_json(j) for j in p["trees"]]
         _, f = check_removal(trees, list(p["ids"]), list(p["subset"]), bool(p["remove_reactions"]), bool(p["as_objects"]),
                              tuple(p.get("spelling", (0, 0, 0, 0))))
-        return f[0] if f else None
+        return f[0][0] if f else None
     raise ValueError(f"unknown replay kind {p['kind']!r}")
